@@ -447,20 +447,33 @@ def r_no_nondeterminism(ctx, repo):
         else:
             rule.ok(f.loc(), '%s: no nondeterminism source' % f.qualname)
     # anchor names: template % counter
+    from . import match as M
     S = repo.cls('serializer.Serializer')
     g = S.methods.get('generate_anchor')
-    t = norm(g.node)
-    if 'self.last_anchor_id += 1' in t and 'self.ANCHOR_TEMPLATE % self.last_anchor_id' in t and \
-            A.const_value(S.attrs['ANCHOR_TEMPLATE'][-1]) == 'id%03d':
-        rule.ok(g.loc(), 'anchor names = id%03d of a per-document counter')
+    if g is None:
+        raise AnalysisError('Serializer.generate_anchor has vanished')
+
+    def template_of(fn, counter):
+        """the constant template formatted with the counter, if the name is derived from the counter alone."""
+        incs = M.find(fn.node, 'self.%s += 1' % counter)
+        fmts = M.find(fn.node, '__tpl %% self.%s' % counter)
+        tpls = {e['__tpl'].value for n, e in fmts if isinstance(e['__tpl'], ast.Constant) and isinstance(e['__tpl'].value, str)}
+        if incs and len(tpls) == 1 and len(fmts) == len([1 for n, e in fmts if isinstance(e['__tpl'], ast.Constant)]):
+            return tpls.pop()
+        return None
+    tpy = template_of(g, 'last_anchor_id')
+    if tpy is not None and tpy.count('%') == 1:
+        rule.ok(g.loc(), 'anchor names = %r of a per-document counter' % tpy)
     else:
         rule.fail('%s|template' % g.qualname, g.module.rel, g.node.lineno, g.qualname, 'generate_anchor',
                   'anchor names are not derived from the per-document counter alone')
     C = repo.cls('_yaml.CEmitter')
     h = C.methods.get('_anchor_node')
-    t = norm(h.node)
-    if 'self.last_alias_id = self.last_alias_id + 1' in t and "'id%03d' % self.last_alias_id" in t:
-        rule.ok(h.loc(), 'C anchor names = id%03d of a per-document counter (same template as the Python serializer)')
+    if h is None:
+        raise AnalysisError('CEmitter._anchor_node has vanished')
+    tc = template_of(h, 'last_alias_id')
+    if tc is not None and (tpy is None or tc == tpy):
+        rule.ok(h.loc(), 'C anchor names = %r of a per-document counter (same template as the Python serializer)' % tc)
     else:
         rule.fail('%s|template' % h.qualname, h.module.rel, h.node.lineno, h.qualname, '_anchor_node',
                   'the C serializer derives anchor names differently from the Python serializer')
